@@ -52,11 +52,17 @@ type fakeLimiter struct {
 	name   string
 	refuse map[int]bool // call index -> refuse
 	n      int
+	byCall map[int]int // caller tag (from the context) -> token id
 }
+
+type callTagKey struct{}
 
 func (f *fakeLimiter) Acquire(ctx context.Context) (core.Listener, bool) {
 	i := f.n
 	f.n++
+	if tag, ok := ctx.Value(callTagKey{}).(int); ok && f.byCall != nil {
+		f.byCall[tag] = i
+	}
 	if f.refuse[i] {
 		f.log.add("acquire:%s:%d:refused", f.name, i)
 		return nil, false
@@ -119,6 +125,10 @@ func runC14(r *Run) {
 		runC14Concurrent(r)
 		return
 	}
+	if kind != 2 && t.Chance(20, "concurrent-unary") {
+		runC14ConcurrentUnary(r, kind)
+		return
+	}
 	log := &evLog{}
 	giveLimiter := t.Chance(85, "limiter-given")
 	giveRespCls := t.Chance(60, "resp-classifier-given")
@@ -160,6 +170,17 @@ func runC14(r *Run) {
 	r.Mixf("C14 kind=%d limiter-given=%v resp-classifier=%v exceeded-classifier=%v ops=%d", kind, giveLimiter, giveRespCls, giveExcCls, nOps)
 	refusals, errOutcomes := 0, 0
 	dirs := map[string]bool{}
+	// F-cancel: some operations run with an already-cancelled context (the limiter doubles still grant)
+	cctx, ccancel := context.WithCancel(bg)
+	ccancel()
+	cancelledCall := make([]bool, 64)
+	for i := range cancelledCall {
+		cancelledCall[i] = t.Chance(15, "cancelled-ctx?")
+	}
+	streamCancelAt := -1
+	if t.Chance(30, "stream-cancel?") {
+		streamCancelAt = t.Intn(nOps, "stream-cancel-at")
+	}
 
 	checkOp := func(i int, limName string, idx int, refused bool, wrappedTag string, gotErr, wantErr error, wantKind string) bool {
 		// events of this operation = the tail of the log since mark
@@ -196,14 +217,19 @@ func runC14(r *Run) {
 			handlerCalls := 0
 			var gotResp interface{}
 			var gotErr error
+			callCtx := bg
+			if cancelledCall[i] {
+				callCtx = cctx
+				r.Fault("F-cancel")
+			}
 			if kind == 0 {
-				gotResp, gotErr = srv(bg, i, &golangGrpc.UnaryServerInfo{FullMethod: "/svc/m"}, func(ctx context.Context, req interface{}) (interface{}, error) {
+				gotResp, gotErr = srv(callCtx, i, &golangGrpc.UnaryServerInfo{FullMethod: "/svc/m"}, func(ctx context.Context, req interface{}) (interface{}, error) {
 					handlerCalls++
 					log.add("call:handler:%d", i)
 					return wantResp, wantErr
 				})
 			} else {
-				gotErr = cli(bg, "/svc/m", i, nil, nil, func(ctx context.Context, method string, req, reply interface{}, cc *golangGrpc.ClientConn, opts ...golangGrpc.CallOption) error {
+				gotErr = cli(callCtx, "/svc/m", i, nil, nil, func(ctx context.Context, method string, req, reply interface{}, cc *golangGrpc.ClientConn, opts ...golangGrpc.CallOption) error {
 					handlerCalls++
 					log.add("call:handler:%d", i)
 					return wantErr
@@ -282,7 +308,9 @@ func runC14(r *Run) {
 			opts = append(opts, clgrpc.WithStreamRecvLimitExceededResponseClassifier(excCls), clgrpc.WithStreamSendLimitExceededResponseClassifier(excCls))
 		}
 		ic := clgrpc.StreamServerInterceptor(opts...)
-		fs := &fakeStream{log: log, ctx: bg, recvErr: func(i int) error { return errs[i] }, sendErr: func(i int) error { return errs[32+i] }}
+		sctx, scancel := context.WithCancel(bg)
+		defer scancel()
+		fs := &fakeStream{log: log, ctx: sctx, recvErr: func(i int) error { return errs[i] }, sendErr: func(i int) error { return errs[32+i] }}
 		var wrapped golangGrpc.ServerStream
 		herr := errors.New("handler result")
 		got := ic(nil, fs, &golangGrpc.StreamServerInfo{FullMethod: "/svc/stream"}, func(srv interface{}, ss golangGrpc.ServerStream) error {
@@ -295,6 +323,10 @@ func runC14(r *Run) {
 		}
 		nr, nsnd := 0, 0
 		for i := 0; i < nOps; i++ {
+			if i == streamCancelAt {
+				scancel() // the stream's context is cancelled from here on; the limiter doubles still grant
+				r.Fault("F-cancel")
+			}
 			send := t.Intn(2, "direction") == 1
 			mark := len(log.ev)
 			var gotErr, wantErr error
@@ -469,5 +501,98 @@ func runC14Concurrent(r *Run) {
 	if overlap {
 		r.Nontrivial = true
 		r.Probe("recv_send_overlapped")
+	}
+}
+
+// runC14ConcurrentUnary: several calls overlap inside ONE unary interceptor instance
+// (the handler / invoker contains a scheduling point); every call must complete its own token
+// exactly once with the outcome of its own result.
+func runC14ConcurrentUnary(r *Run, kind int) {
+	t := r.T
+	log := &evLog{}
+	lim := &fakeLimiter{log: log, name: "unary", refuse: map[int]bool{}, byCall: map[int]int{}}
+	srv := clgrpc.UnaryServerInterceptor(clgrpc.WithLimiter(lim))
+	cli := clgrpc.UnaryClientInterceptor(clgrpc.WithLimiter(lim))
+	s := r.NewSched()
+	nCalls := 2 + t.Intn(3, "calls")
+	errsC := make([]error, nCalls)
+	for i := range errsC {
+		errsC[i] = errPool[t.Intn(len(errPool), "err")]
+	}
+	r.Mixf("C14 concurrent unary kind=%d calls=%d errs=%v", kind, nCalls, errsC)
+	got := make([]error, nCalls)
+	done := make([]bool, nCalls)
+	overlap := false
+	inside := 0
+	for i := 0; i < nCalls; i++ {
+		i := i
+		s.Go("caller", func(tk *Task) {
+			ctx := context.WithValue(bg, callTagKey{}, i)
+			tk.Begin("call", i)
+			if kind == 0 {
+				_, got[i] = srv(ctx, i, &golangGrpc.UnaryServerInfo{FullMethod: "/svc/m"}, func(ctx context.Context, req interface{}) (interface{}, error) {
+					inside++
+					if inside > 1 {
+						overlap = true
+					}
+					globalHook(kYield, "handler")
+					inside--
+					return i, errsC[i]
+				})
+			} else {
+				got[i] = cli(ctx, "/svc/m", i, nil, nil, func(ctx context.Context, method string, req, reply interface{}, cc *golangGrpc.ClientConn, opts ...golangGrpc.CallOption) error {
+					inside++
+					if inside > 1 {
+						overlap = true
+					}
+					globalHook(kYield, "invoker")
+					inside--
+					return errsC[i]
+				})
+			}
+			done[i] = true
+			tk.End(nil)
+		})
+	}
+	s.Run()
+	if s.Failed() != nil || s.Truncated {
+		return
+	}
+	for i := 0; i < nCalls; i++ {
+		if !done[i] {
+			return
+		}
+		if got[i] != errsC[i] {
+			r.Fail("result-altered", "unary/concurrent", "call %d returned %v, its handler produced %v", i, got[i], errsC[i])
+			return
+		}
+		id, ok := lim.byCall[i]
+		if !ok {
+			r.Fail("interceptor-protocol", "unary/concurrent", "call %d never acquired", i)
+			return
+		}
+		want := "success"
+		if errsC[i] != nil {
+			want = "dropped"
+		}
+		n := 0
+		kinds := ""
+		for _, e := range log.ev {
+			var gid int
+			var k string
+			if _, err := fmt.Sscanf(e, "listener:unary:%d:", &gid); err == nil && gid == id {
+				n++
+				k = e[len(fmt.Sprintf("listener:unary:%d:", gid)):]
+				kinds += k + " "
+			}
+		}
+		if n != 1 || kinds != want+" " {
+			r.Fail("interceptor-protocol", "unary/concurrent", "overlapping calls through one interceptor: the token of call %d (handler error %v) was completed %d time(s) [%s], expected exactly once as %s; event log: %v", i, errsC[i], n, kinds, want, log.ev)
+			return
+		}
+	}
+	if overlap {
+		r.Nontrivial = true
+		r.Probe("unary_calls_overlapped")
 	}
 }
